@@ -215,6 +215,8 @@ class Report
         if (!cell.empty())
             cells_[cell] += n;
     }
+    // Add a coverage cell without counting a case (sub-observation inside a counted case)
+    void cell(std::string const& c, std::uint64_t n = 1) { cells_[c] += n; }
     // Held but trivial (not counted as a coverage cell)
     void held_trivial(std::uint64_t n = 1)
     {
